@@ -158,6 +158,14 @@ def run(run_, pkg, tier):
         key = "C03-e/gradient-index/%s" % "+".join(vt)
         if run_.wants(key):
             tasks.append((key, "C03-e-indexing", gradient_index_obligation(vt), "%s:%d" % (ifn._gs_module, ifn.lineno)))
+    # custom edges take their Jacobians from numerical differentiation: the J that enters b and H must be the difference quotient
+    # through boxplus at the documented step (shared with C16)
+    from .c16 import finite_difference_obligation, SHAPES as FD_SHAPES
+    jfn = pkg.method("BaseEdge", "_calc_jacobian")
+    for vt in FD_SHAPES:
+        key = "C03-a/custom-edge-jacobian/%s" % "+".join(vt)
+        if run_.wants(key):
+            tasks.append((key, "C03-a-custom-edge-jacobian", finite_difference_obligation(vt), "%s:%d" % (jfn._gs_module, jfn.lineno)))
     record(run_, tasks, run_tasks(pkg, tasks))
     if run_.only is None:
         n = optim_rules.optimize_verdicts(run_, pkg, "C03", lambda f: (f.key, f.rule) if f.rule.startswith("C03-d") else None)
